@@ -1,16 +1,52 @@
 (* C06 -- let bindings are lexically scoped.
-   Statements only; proofs are in Scope/Refine*.v.  Scope/Lexical.v is the specification (an
-   environment-passing resolver written from docs/api.rst), Scope/Walk.v + Scope/Machine.v the model
-   of the implementation (tied to the code by the trace correspondences of props/c06.py). *)
-From HyV Require Import Base.Text Scope.SetDecl Scope.OuterVars Scope.Machine Scope.Walk Scope.Lexical Scope.Refine.
+   Statements only; proofs are in Scope/RefineP01..P19.v.
+
+   Scope/Lexical.v is the specification: an environment-passing resolver written from docs/api.rst
+   (let: sequential bindings, shadowing, nothing visible outside; setv/setx to a let-bound name means
+   that variable; a function's own names -- parameters and names assigned directly in its body --
+   hide outer let bindings inside it; everything else keeps the meaning of the definition point).
+   Scope/Walk.v + Scope/Machine.v are the model of the implementation: the scope calls the compiler
+   makes (compile_symbol, compile_assign, compile_let, compile_function_lambda, compile_function_def) and the scope classes with
+   their renaming of mutable nodes and the deferred propagation in ScopeFn.__exit__.  Both are tied
+   to the code on every run (props/c06.py: recorded traces vs machine, recorded traces vs walk). *)
+From HyV Require Import Base.Text Scope.SetDecl Scope.OuterVars Scope.Machine Scope.Walk Scope.Lexical Scope.Refine
+  Scope.RefineP19.
 Local Open Scope nat_scope.
 
-(* let_refines_lexical, full statement: for every module within the specification (l_ok) whose let
-   variables are new names, every identifier node ends up with the name the lexical resolver gives it. *)
+(* Full statement: for every module, every identifier node ends up with the name lexical scoping
+   prescribes.  Not provable as it stands: class bodies, nonlocal/global declarations, comprehension
+   forms and defn of a let-bound name have no clause in the specification (l_ok = false), and for
+   class bodies the implementation is known to deviate (finding C06-class-attribute-hides-let-binding). *)
 Definition C06_let_refines_lexical_full : Prop :=
-  forall fresh fs, fresh_ok fresh fs -> l_ok (lex_module fresh fs) = true -> refines fresh fs.
+  forall (fresh : name -> nat -> name) (user : name -> bool),
+    (forall x k, user (fresh x k) = false) ->
+    forall fs, (forall x, In x (flat_map names_of fs) -> user x = true) -> refines fresh fs.
 
-(* the documentation's shadowing example and a closure example, by computation *)
+(* Proved: the same for every module inside the specification -- literals, symbols, setv/setx, do,
+   calls, let (any number of sequential bindings), fn, defn, nested to any depth, any length.
+   [user] separates the program's names from the new let variables (that they are new is C12's
+   subject); nothing else is assumed about [fresh].
+   What the proof establishes on the way: an inner let shadows and leaving it restores (the bindings
+   of enclosing scopes are untouched), setv/setx targets get the same variable as reads, no let
+   variable is used outside the let's extent, same-named plain names outside are not renamed, and
+   the nodes a function scope hands to its parent on __exit__ are resolved with the bindings of the
+   function's definition point (RefineP10.exit_fold_inv, RefineP11.step_exit_fn). *)
+Theorem C06_let_refines_lexical_partial :
+  forall (fresh : name -> nat -> name) (user : name -> bool),
+    (forall x k, user (fresh x k) = false) ->
+    forall fs, (forall x, In x (flat_map names_of fs) -> user x = true) ->
+    l_ok (lex_module fresh fs) = true -> refines fresh fs.
+Proof. exact let_refines_lexical. Qed.
+Print Assumptions C06_let_refines_lexical_partial.
+
+(* the hypotheses are satisfiable for Hy's naming scheme: names that do not start with "_hy_" *)
+Definition not_reserved (n : name) : bool := negb (starts_with [95; 104; 121; 95]%N n).
+Theorem C06_hy_let_names_are_reserved : forall x k, not_reserved (hy_let_name x k) = false.
+Proof. intros x k. reflexivity. Qed.
+Print Assumptions C06_hy_let_names_are_reserved.
+
+(* instances: the documentation's shadowing example and a closure example (by computation, and as
+   instances of the theorem) *)
 Theorem C06_doc_example_refines : refines hy_let_name doc_example.
 Proof. exact doc_example_refines. Qed.
 Print Assumptions C06_doc_example_refines.
@@ -18,3 +54,11 @@ Print Assumptions C06_doc_example_refines.
 Theorem C06_closure_example_refines : refines hy_let_name closure_example.
 Proof. exact closure_example_refines. Qed.
 Print Assumptions C06_closure_example_refines.
+
+Example C06_doc_example_names :
+  l_cells (lex_module hy_let_name doc_example)
+  = [[hy_let_name nx 1]; [hy_let_name nx 1]; [hy_let_name ny 2]; [hy_let_name ny 2];
+     [nprint]; [hy_let_name nx 1]; [hy_let_name ny 2];
+     [hy_let_name nx 3]; [hy_let_name nx 3]; [nprint]; [hy_let_name nx 3]; [hy_let_name ny 2];
+     [nprint]; [hy_let_name nx 1]; [hy_let_name ny 2]].
+Proof. exact doc_example_names. Qed.
